@@ -203,3 +203,31 @@ package db19
 //@   modifies all, gCalls, gBlockThrew, gBlockRet, gDispatch
 //@   ghost same bool = newrec == oldrec
 //@   ensures! announced: old(t.db.corrupted.v) == 0 && !same ==> gDispatch >= old(gDispatch) + 1
+
+//@ property C07
+// ---- key and unique index constraints: the per-change decision ---------------------------------------------
+// dupOutputBlock is called by Output and update for every index whose key changes. If it returns normally for
+// an index that needs the check (a primary key, or a unique index that is not covered by a key and whose fields
+// are not all empty) then the transaction's view of that index - the layered lookup of C16 - has no row with the
+// new key; and the point read of that key is registered for the conflict check (t.Read), which is what makes a
+// concurrent transaction adding the same key conflict (the checker itself: C01, not covered).
+// keysEmpty abstracts uniqueIndexEmpty (all fields of the unique index are empty in the record).
+//@ spec keysEmpty(rec core.Record, is ixkey.Spec) bool
+//@ func uniqueIndexEmpty(rec, is) (r)
+//@   assumed
+//@   pure
+//@   defines r == keysEmpty(rec, is)
+//@ func needsDupCheck(ix, rec) (r)
+//@   ensures! r <==> ix.Primary || (ix.Mode == 117 && !ix.ContainsKey && !keysEmpty(rec, ix.Ixspec))
+//@ ghost var gReads int
+//@ func (t *UpdateTran) Read(table, index, from, to)
+//@   assumed
+//@   modifies gReads
+//@   defines gReads == old(gReads) + 1
+//@ func (t *UpdateTran) dupOutputBlock(table, iIndex, ix, ov, rec, key)
+//@   nosafety
+//@   maypanic
+//@   requires ov != nil
+//@   modifies gReads
+//@   ensures! no_visible_duplicate: (ix.Primary || (ix.Mode == 117 && !ix.ContainsKey && !keysEmpty(rec, ix.Ixspec))) ==> ovLook(ov, key) == 0
+//@   ensures! read_registered: (ix.Primary || (ix.Mode == 117 && !ix.ContainsKey && !keysEmpty(rec, ix.Ixspec))) ==> gReads == old(gReads) + 1
